@@ -136,6 +136,30 @@ def add_lists(n, rng, p=0.3, top=True):
     return n
 
 
+def probe_stages(docs, rng):
+    """later stages that write every path the history mentions again - at the default, the weak and the force level - plus the same with
+    the values wrapped one level deeper; used to expose a hidden priority"""
+    paths = []
+    for d in docs:
+        for p in gen.existing_paths(d):
+            if p and all(isinstance(c, str) for c in p) and p not in paths:
+                paths.append(p)
+    out = []
+    for tag in (None, '!weak', '!force'):
+        for p in paths[:12]:
+            leaf = ('sc', tag, 'probe')
+            n = leaf
+            for c in reversed(p):
+                n = ('map', None, [(c, n)])
+            out.append(n)
+            n2 = ('map', tag, [('probe', ('sc', None, '1'))])
+            for c in reversed(p):
+                n2 = ('map', None, [(c, n2)])
+            out.append(n2)
+    rng.shuffle(out)
+    return out[:40]
+
+
 def spec_items(docs):
     """(stage-tree item, document item, texts, outcome) for one history, or None if it cannot be parsed / serialised"""
     from .. import ser, loadcorr
@@ -167,7 +191,7 @@ def spec_p_corr(rep, rng, n):
     concrete failing input of the property; a difference only in node priorities breaks the correspondence obligation."""
     prof = gen.PROFILES['priomap']
     prof_new = gen.Profile(p_tag=0.35, tags=gen.PRIO_TAGS + ['!new', '!unsafe'], p_seq=0.0, p_map=0.55, meta=0.2, p_empty=0.05)   # !new / !unsafe marks are inside the class
-    items, shown, ditems = [], [], []
+    items, shown, ditems, trees = [], [], [], []
     for i in range(n):
         docs = gen_three_stage(rng) if i % 4 == 0 else (gen_meta_history(rng) if i % 8 == 6 else gen.gen_history(rng, prof_new if i % 4 == 1 else prof, 2, 5))
         if i % 2 == 1:
@@ -178,6 +202,7 @@ def spec_p_corr(rep, rng, n):
         items.append(it[0])
         ditems.append(it[1])
         shown.append(it[2])
+        trees.append(docs)
         rep.count('priority spec: implementation ' + it[3])
     hdr, inclass, chk_full, chk_vals = SPEC_HDR, SPEC_INCLASS, SPEC_FULL, SPEC_VALS
     bad, errors_, wall, cmd = common.run_case_files('c03p', hdr, items, chk_full, shard=150)
@@ -192,6 +217,21 @@ def spec_p_corr(rep, rng, n):
                not bad and not errors_ and not errors2 and not errors3 and ninc > 0, (f'{len(bad)} disagreements, e.g. {shown[bad[0]]}' if bad else '') + (errors_[0]['log'][-400:] if errors_ else ''))
     for i in badv[:3]:
         rep.violation('the merged values differ from the prioritised update (the latest writer of highest priority) on mapping documents with priority tags', dict(oracle='upd_p spec', input=shown[i]))
+    # a history on which only node PRIORITIES differ from the prediction: search for a later stage that turns the hidden difference into a wrong VALUE
+    # (every existing path written again with fresh values at each priority level; a few random related stages)
+    hidden = [i for i in bad if i not in badv][:4]
+    if hidden and not badv:
+        probes, pshown = [], []
+        for i in hidden:
+            for ext in probe_stages(trees[i], rng):
+                it = spec_items(trees[i] + [ext])
+                if it is not None:
+                    probes.append(it[0])
+                    pshown.append(it[2])
+        pbad = common.run_case_files('c03x', hdr, probes, chk_vals, shard=150)[0] if probes else []
+        rep.count('priority spec: probe stages tried for hidden priority differences', len(probes))
+        for j in pbad[:2]:
+            rep.violation('a node priority that differs from the prioritised update decides a later stage wrongly: the merged values differ', dict(oracle='upd_p spec', input=pshown[j]))
     # ... and the metadata mapping of every node (C03_metadata_prediction_sound): {**loser, **survivor} at every meeting
     mhdr = 'From AY Require Import Model.Eq Spec.Update Spec.UpdateP Spec.UpdatePM Proofs.MergePrio Proofs.MergePrioMeta Proofs.PrioClass Proofs.PrioMetaLoad.\nOpen Scope Z_scope.\n'
     mchk = 'fun c : list node * option node => match predict_meta (fst c), snd c with Some d, Some r => mp_eqb d (merase r) | Some _, None => false | None, _ => true end'
